@@ -43,6 +43,7 @@ type World struct {
 	Invs     map[string]*Clause
 	InvPkg   map[string]string
 	Sorts    []string
+	KeyCtorDecls []KeyCtorDecl
 	AllPkgs  []*packages.Package // every package reachable (for extern types)
 	byPath   map[string]*packages.Package
 }
@@ -192,6 +193,7 @@ func LoadWorld(repoDir string, patterns []string, overlay map[string][]byte, spe
 			w.InvPkg[a.Label] = cf.Pkg
 		}
 		w.Sorts = append(w.Sorts, cf.Sorts...)
+		w.KeyCtorDecls = append(w.KeyCtorDecls, cf.KeyCtors...)
 	}
 	return w, nil
 }
